@@ -471,7 +471,7 @@ def show(c):
 
 
 def short(path):
-    return re.sub(r'\b[a-z_][a-z_0-9]*::', '', path)
+    return re.sub(r'\b[a-z_][a-z_0-9]*::(?=[A-Za-z_])', '', path)
 
 
 def strip_var_ids(c):
@@ -966,4 +966,79 @@ def flatten_conds(conds, env):
     for cd in conds:
         if cd[0] == 'if':
             add(hcanon(cd[1], env), cd[2])
+    return out
+
+
+
+# --------------------------------------------------------------------------- value flow over MIR
+
+
+def rv_source_locals(rv):
+    """locals read by an rvalue (through any projection)"""
+    out = []
+    k = rv['k']
+
+    def opl(op):
+        pl = op_place(op)
+        if pl is not None:
+            out.append(pl['l'])
+    if k in ('use', 'cast', 'repeat'):
+        opl(rv['op'])
+    elif k in ('ref', 'rawptr', 'discr'):
+        out.append(rv['place']['l'])
+    elif k == 'bin':
+        opl(rv['a'])
+        opl(rv['b'])
+    elif k == 'un':
+        opl(rv['a'])
+    elif k == 'agg':
+        for o in rv['ops']:
+            opl(o)
+    return out
+
+
+def forward_flow(body, seeds, through_calls=None):
+    """locals that (may) hold a value derived from the seed locals, following assignments
+    (moves, copies, refs, projections, aggregates).  through_calls(callee dict) -> True lets the
+    value flow from any argument to the call's destination (adaptors such as as_ref)."""
+    flow = set(seeds)
+    changed = True
+    while changed:
+        changed = False
+        for b in range(body.n):
+            blk = body.blocks[b]
+            if blk['cleanup']:
+                continue
+            for st in blk['stmts']:
+                if st['k'] != 'assign':
+                    continue
+                tgt = st['lhs']['l']
+                if tgt in flow:
+                    continue
+                if any(l in flow for l in rv_source_locals(st['rv'])):
+                    flow.add(tgt)
+                    changed = True
+            t = blk['term']
+            if t['k'] == 'call' and through_calls is not None and t['dest']['l'] not in flow:
+                if through_calls(t['callee']):
+                    for a in t['args']:
+                        pl = op_place(a)
+                        if pl is not None and pl['l'] in flow:
+                            flow.add(t['dest']['l'])
+                            changed = True
+                            break
+    return flow
+
+
+def call_uses(body, flow):
+    """call sites that receive a value from `flow` as an argument: [(bb, term, [arg idx])]"""
+    out = []
+    for b, t in body.calls():
+        idx = []
+        for i, a in enumerate(t['args']):
+            pl = op_place(a)
+            if pl is not None and pl['l'] in flow:
+                idx.append(i)
+        if idx:
+            out.append((b, t, idx))
     return out
